@@ -12,10 +12,12 @@ import (
 	"encoding/json"
 	"fmt"
 	"net"
+	"runtime"
 	"sort"
 	"strconv"
 	"strings"
 	"sync"
+	"sync/atomic"
 	"time"
 
 	"verifharness/vh"
@@ -28,6 +30,18 @@ type Op struct {
 	K       string `json:"k"` // addip alloc dealloc get stats conc
 	IP      uint32 `json:"ip,omitempty"`
 	Scripts [][]Op `json:"scripts,omitempty"` // conc: one script per goroutine (alloc/dealloc only)
+	// race: Rounds barrier-released rounds; in round r, Callers goroutines call AllocateNAT for the
+	// same fresh private IP at once.  Yield: the in-memory log writer yields the processor in Write.
+	Callers int  `json:"callers,omitempty"`
+	Rounds  int  `json:"rounds,omitempty"`
+	Yield   bool `json:"yield,omitempty"`
+	// gated: Pre is logged (buffered), a Flush is started and held inside its first Write, During
+	// is executed while that flush is in progress, the flush is released, Post follows.
+	// flusher: Pre is executed by one caller while another goroutine flushes in a loop through a
+	// slow writer.
+	Pre    []Op `json:"pre,omitempty"`
+	During []Op `json:"during,omitempty"`
+	Post   []Op `json:"post,omitempty"`
 }
 type Case struct {
 	PPS   int    `json:"pps"`
@@ -69,11 +83,35 @@ type rec struct {
 
 // lockedBuf: the Logger serialises writes under its own mutex; reads happen between calls.
 type lockedBuf struct {
-	mu sync.Mutex
-	b  bytes.Buffer
+	mu    sync.Mutex
+	b     bytes.Buffer
+	yield atomic.Bool
+	slow  atomic.Bool
+	gate  atomic.Pointer[gate]
 }
 
-func (l *lockedBuf) Write(p []byte) (int, error) { l.mu.Lock(); defer l.mu.Unlock(); return l.b.Write(p) }
+// Write: harness-side behaviours of the writer (the code under test is unchanged):
+//   yield - give up the processor before writing (a slow disk / pipe), so that other goroutines
+//           run while a flush or an AllocateNAT that logs synchronously is in progress;
+//   gate  - the next Write announces itself on entered and waits for release (a flush held
+//           mid-batch, deterministically).
+func (l *lockedBuf) Write(p []byte) (int, error) {
+	if g := l.gate.Swap(nil); g != nil {
+		close(g.entered)
+		<-g.release
+	}
+	if l.yield.Load() {
+		runtime.Gosched()
+		if l.slow.Load() {
+			time.Sleep(20 * time.Microsecond)
+		}
+	}
+	l.mu.Lock()
+	defer l.mu.Unlock()
+	return l.b.Write(p)
+}
+
+type gate struct{ entered, release chan struct{} }
 func (l *lockedBuf) take() string {
 	l.mu.Lock()
 	defer l.mu.Unlock()
@@ -304,11 +342,23 @@ func run(c Case) vh.Case {
 		case "conc":
 			op, res = s.conc(o), "RNone"
 			tags[fmt.Sprintf("conc:goroutines:%d", len(o.Scripts))] = true
+		case "race":
+			var dbl int
+			op, dbl = s.race(o)
+			res = "RNone"
+			tags[fmt.Sprintf("race:callers:%d", o.Callers)] = true
+			if dbl > 0 {
+				tags["race:saw-two-blocks-for-one-subscriber"] = true
+			}
+		case "gated":
+			op, res = s.gated(o), "RNone"
+		case "flusher":
+			op, res = s.flusher(o), "RNone"
 		default:
 			panic("unknown op " + o.K)
 		}
 		var rs []rec
-		if o.K != "conc" {
+		if o.K != "conc" && o.K != "race" && o.K != "gated" && o.K != "flusher" {
 			rs = s.drain()
 		}
 		after := time.Now().UTC()
@@ -383,8 +433,148 @@ func (s *sys) conc(o Op) string {
 		}
 	}
 	rs := s.drain()
-	return fmt.Sprintf("ConcObs (co %s %s %s %s)",
+	return fmt.Sprintf("ConcObs (co %s %s false %s %s)",
 		vh.List(all), vh.Bool(hasDealloc), vh.List(table), recsCoq(rs))
+}
+
+// race: Rounds rounds; in each round Callers goroutines leave a spinning barrier together and call
+// AllocateNAT for the same, fresh private IP.  Observation: the distinct allocations returned per
+// round (every return is recorded; equal ones are listed once), the final table, the log.
+func (s *sys) race(o Op) (string, int) {
+	s.buf.yield.Store(o.Yield)
+	defer s.buf.yield.Store(false)
+	n, rounds := o.Callers, o.Rounds
+	rets := make([][]*nat.Allocation, n)
+	for g := range rets {
+		rets[g] = make([]*nat.Allocation, rounds)
+	}
+	var arrived atomic.Int64
+	var wg sync.WaitGroup
+	for g := 0; g < n; g++ {
+		wg.Add(1)
+		go func(g int) {
+			defer wg.Done()
+			for r := 0; r < rounds; r++ {
+				ip := ip4(o.IP + uint32(r))
+				arrived.Add(1)
+				for arrived.Load() < int64((r+1)*n) { // barrier: everybody enters round r together
+					runtime.Gosched()
+				}
+				if a, err := s.mgr.AllocateNAT(ip); err == nil {
+					rets[g][r] = a
+				}
+			}
+		}(g)
+	}
+	wg.Wait()
+	var all, table []string
+	doubles := 0
+	for r := 0; r < rounds; r++ {
+		seen := map[string]bool{}
+		for g := 0; g < n; g++ {
+			if a := rets[g][r]; a != nil {
+				v := view(a)
+				if !seen[v] {
+					seen[v] = true
+					all = append(all, v)
+				}
+			}
+		}
+		if len(seen) > 1 {
+			doubles++
+		}
+		if a := s.mgr.GetAllocation(ip4(o.IP + uint32(r))); a != nil {
+			table = append(table, view(a))
+		}
+	}
+	rs := s.drain()
+	return fmt.Sprintf("ConcObs (co %s false false %s %s)", vh.List(all), vh.List(table), recsCoq(rs)), doubles
+}
+
+// seqOps executes alloc/dealloc ops in program order on the calling goroutine (no drain).
+func (s *sys) seqOps(ops []Op, rets *[]string, privs map[uint32]bool) {
+	for _, x := range ops {
+		privs[x.IP] = true
+		switch x.K {
+		case "alloc":
+			if a, err := s.mgr.AllocateNAT(ip4(x.IP)); err == nil {
+				*rets = append(*rets, view(a))
+			}
+		case "dealloc":
+			s.mgr.DeallocateNAT(ip4(x.IP))
+		}
+	}
+}
+
+func (s *sys) strictObs(rets []string, privs map[uint32]bool) string {
+	var ks []uint32
+	for k := range privs {
+		ks = append(ks, k)
+	}
+	sort.Slice(ks, func(i, j int) bool { return ks[i] < ks[j] })
+	var table []string
+	for _, k := range ks {
+		if a := s.mgr.GetAllocation(ip4(k)); a != nil {
+			table = append(table, view(a))
+		}
+	}
+	rs := s.drain()
+	return fmt.Sprintf("ConcObs (co %s true true %s %s)", vh.List(rets), vh.List(table), recsCoq(rs))
+}
+
+// gated: events are logged while a flush of the earlier (>= 2) records is held inside its first Write.
+func (s *sys) gated(o Op) string {
+	var rets []string
+	privs := map[uint32]bool{}
+	s.seqOps(o.Pre, &rets, privs)
+	g := &gate{entered: make(chan struct{}), release: make(chan struct{})}
+	s.buf.gate.Store(g)
+	done := make(chan struct{})
+	go func() {
+		s.lg.Flush()
+		s.lg.FlushPortBlocks()
+		close(done)
+	}()
+	select {
+	case <-g.entered: // the flush is now inside Write with the rest of its batch still to come
+		s.seqOps(o.During, &rets, privs)
+		close(g.release)
+	case <-done: // nothing was buffered
+		s.buf.gate.Store(nil)
+		s.seqOps(o.During, &rets, privs)
+	}
+	<-done
+	s.seqOps(o.Post, &rets, privs)
+	return s.strictObs(rets, privs)
+}
+
+// flusher: one caller issues the events while another goroutine flushes continuously through a
+// slow, yielding writer (the role of Logger.flushLoop, driven by the harness so that it can be joined).
+func (s *sys) flusher(o Op) string {
+	var rets []string
+	privs := map[uint32]bool{}
+	s.buf.yield.Store(true)
+	s.buf.slow.Store(true)
+	var stop atomic.Bool
+	done := make(chan struct{})
+	go func() {
+		for !stop.Load() {
+			s.lg.Flush()
+			runtime.Gosched()
+		}
+		close(done)
+	}()
+	for _, x := range o.Pre {
+		s.seqOps([]Op{x}, &rets, privs)
+		if o.Yield {
+			runtime.Gosched()
+		}
+	}
+	stop.Store(true)
+	<-done
+	s.buf.yield.Store(false)
+	s.buf.slow.Store(false)
+	return s.strictObs(rets, privs)
 }
 
 // ---------------------------------------------------------------- generators
@@ -546,6 +736,61 @@ func genConc(r *vh.Rng, g geom, mode string) Case {
 	return c
 }
 
+// genRace: same-subscriber race rounds (no releases): 2..16 callers, many rounds per case.
+func genRace(r *vh.Rng, rounds int, mode string) Case {
+	c := Case{PPS: 16, Start: 1024, End: 65535, Log: mode, Buf: []int{1, 5, 1000}[r.Intn(3)]}
+	c.Ops = append(c.Ops, Op{K: "addip", IP: pub(0)})
+	callers := []int{2, 3, 4, 6, 8, 8, 12, 16}[r.Intn(8)]
+	c.Ops = append(c.Ops, Op{K: "race", IP: priv(100), Callers: callers, Rounds: rounds, Yield: r.Bool()})
+	return c
+}
+
+func genEvents(r *vh.Rng, n int, held *[]int, nsub int) []Op {
+	var ops []Op
+	for len(ops) < n {
+		if len(*held) > 0 && r.Chance(2, 5) {
+			k := r.Intn(len(*held))
+			ops = append(ops, Op{K: "dealloc", IP: priv((*held)[k])})
+			*held = append((*held)[:k], (*held)[k+1:]...)
+			continue
+		}
+		w := r.Intn(nsub)
+		isHeld := false
+		for _, h := range *held {
+			if h == w {
+				isHeld = true
+			}
+		}
+		if isHeld {
+			continue
+		}
+		ops = append(ops, Op{K: "alloc", IP: priv(w)})
+		*held = append(*held, w)
+	}
+	return ops
+}
+
+// genGated: >= 2 buffered records, a flush held mid-batch, >= 2 events during it.
+func genGated(r *vh.Rng, mode string) Case {
+	c := Case{PPS: 1000, Start: 60000, End: 65535, Log: mode, Buf: 200}
+	c.Ops = append(c.Ops, Op{K: "addip", IP: pub(0)}, Op{K: "addip", IP: pub(1)})
+	var held []int
+	pre := genEvents(r, 2+r.Intn(4), &held, 8)
+	during := genEvents(r, 2+r.Intn(4), &held, 8)
+	post := genEvents(r, r.Intn(3), &held, 8)
+	c.Ops = append(c.Ops, Op{K: "gated", Pre: pre, During: during, Post: post})
+	return c
+}
+
+// genFlusher: traditional mode, small BufferSize, a concurrent flusher behind a slow writer.
+func genFlusher(r *vh.Rng, mode string) Case {
+	c := Case{PPS: 1000, Start: 60000, End: 65535, Log: mode, Buf: 2 + r.Intn(3)}
+	c.Ops = append(c.Ops, Op{K: "addip", IP: pub(0)}, Op{K: "addip", IP: pub(1)})
+	var held []int
+	c.Ops = append(c.Ops, Op{K: "flusher", Pre: genEvents(r, 20+r.Intn(40), &held, 9), Yield: r.Bool()})
+	return c
+}
+
 const header = `From Coq Require Import ZArith NArith List. Import ListNotations.
 From Verif Require Import Model.Nat Model.NatSpec Model.NatCheck.
 Local Open Scope Z_scope.
@@ -645,4 +890,43 @@ func main() {
 		cc = append(cc, run(genConc(r.Fork(), g, logModes[i%2])))
 	}
 	vh.Emit(cfg, "concurrent", header, footer, cc, map[string]interface{}{"sampled_schedules": true})
+
+	// same-subscriber race: barrier-released rounds (sampled schedules, many rounds per case)
+	if runtime.GOMAXPROCS(0) < 8 {
+		runtime.GOMAXPROCS(8)
+	}
+	nRace, rounds := 16, 200
+	if cfg.Thorough() {
+		nRace = 100
+	}
+	var rc []vh.Case
+	doubles := 0
+	for i := 0; i < nRace; i++ {
+		x := run(genRace(r.Fork(), rounds, logModes[i%2]))
+		for _, t := range x.Tags {
+			if t == "race:saw-two-blocks-for-one-subscriber" {
+				doubles++
+			}
+		}
+		rc = append(rc, x)
+	}
+	rcfg := cfg
+	rcfg.Shard = 3
+	vh.Emit(rcfg, "race", header, footer, rc, map[string]interface{}{"sampled_schedules": true, "rounds_per_case": rounds,
+		"gomaxprocs": runtime.GOMAXPROCS(0)})
+
+	// log events during an in-progress flush (deterministic gate) and beside a continuous flusher
+	nFl := 40
+	if cfg.Thorough() {
+		nFl = 400
+	}
+	var fl []vh.Case
+	for i := 0; i < nFl; i++ {
+		mode := []string{"bulk", "trad", "trad-csv", "bulk"}[i%4]
+		fl = append(fl, run(genGated(r.Fork(), mode)))
+		if i%2 == 0 {
+			fl = append(fl, run(genFlusher(r.Fork(), []string{"trad", "trad-csv"}[(i/2)%2])))
+		}
+	}
+	vh.Emit(cfg, "flush", header, footer, fl, nil)
 }
